@@ -91,6 +91,18 @@ CHECKS = {
         text="Decides necessary conditions at the switch-over: in each quaternion hemisphere (w>0, w<0, |v| = sin th, w = +-cos th) the small-angle arm of SO3::log equals the limit of the closed form (q and -q have the same logarithm there); SE2::log and V^-1 arms meet; no division by a vanishing quantity; SE3/SE_2_3/SGal3 log delegate to SO3::log and ljacinv; planar angle() is atan2(imag, real). Does not decide round trips, behaviour near pi, finiteness.",
         note="A genuine defect found by this rule (SO3::log ignores the hemisphere below the threshold) was repaired by a fix: commit.",
     ),
+    "C08": dict(
+        level="other", design="3/C08",
+        technique="static analysis: must-pass-through renormalisation rule on compose, exact series check of the renormalisation polynomial's contraction (sympy), call-graph delegation, producer term rules",
+        text="Decides the presence and the contraction property of the mechanism: SO2/SE2/SO3 compose pass a renormalisation step guarded by `abs(sqnorm-1) > eps` (or an unconditional normalisation) that scales every coefficient of the rotation by the same s(sqnorm) with N*s(N)^2 - 1 = O((N-1)^2) (the shipped polynomial contracts cubically); the composite groups delegate to SO3::compose; inverse is the conjugate, cast re-normalises, the small-angle arm of SO3 exp stays within the acceptance threshold. Does not decide a history-independent bound on accumulated rounding drift.",
+        note="The behavioural quantifier (all histories, floating point) is out of reach; the mechanism's absence or a non-contracting polynomial would make drift unbounded.",
+    ),
+    "C13": dict(
+        level="other", design="3/C13",
+        technique="static analysis: constructor-delegation must-pass-through, assertion rules on both -UNDEBUG and -DNDEBUG instantiations, slice-agreement rule, exact symbolic constructor/accessor round trips, static_assert witnesses",
+        text="Decides: every constructor taking rotation data reaches the validating constructor; with assertions on each acceptance test is `!(|norm(slice)-1| < eps)` -> invalid_argument and with NDEBUG none raises; the validated slice equals the slice normalize() rescales and the asSO3()/complex accessors read; coefficient-level constructors followed by translation()/quat()/x()...linearVelocity()/t() give back exactly the supplied quantities (symbolic); cast re-normalises; transform() and hat() matrices have consistent sizes. Does not decide orthonormality of rotation(), wrap-around, gimbal cases, threshold behaviour for specific values.",
+        note="A genuine defect found by the size witness (Rn::Transformation NxN) was repaired by a fix: commit.",
+    ),
 }
 
 NOT_APPLICABLE = {
